@@ -40,6 +40,23 @@ const LOWER: &[u8] = b"abcdefghijklmnopqrstuvwxyz";
 const DIGIT: &[u8] = b"0123456789";
 const ALNUM: &[u8] = b"abcdefghijklmnopqrstuvwxyz0123456789";
 
+/// words the library's own sources mention (engine.source_dictionary, env VERIF_DICT): a word the code
+/// treats specially is not in any class-based pool
+fn dict() -> &'static Vec<Vec<u8>> {
+    static D: std::sync::OnceLock<Vec<Vec<u8>>> = std::sync::OnceLock::new();
+    D.get_or_init(|| {
+        std::env::var("VERIF_DICT").ok()
+            .and_then(|p| std::fs::read_to_string(p).ok())
+            .and_then(|t| serde_json::from_str::<Vec<Vec<u8>>>(&t).ok())
+            .unwrap_or_default()
+    })
+}
+/// with probability 1/8 replace a generated token by a dictionary word
+fn dictify(r: &mut Rng, v: Vec<u8>) -> Vec<u8> {
+    let d = dict();
+    if !d.is_empty() && r.chance(1, 8) { d[r.below(d.len())].clone() } else { v }
+}
+
 fn word(r: &mut Rng, set: &[u8], lo: usize, hi: usize) -> Vec<u8> {
     let n = lo + r.below(hi - lo + 1);
     (0..n).map(|_| *r.pick(set)).collect()
@@ -72,7 +89,7 @@ fn gen_li_tokens(r: &mut Rng) -> Vec<Vec<u8>> {
     let mut t = vec![gen_lang(r)];
     if r.chance(1, 2) { t.push(gen_script(r)); }
     if r.chance(1, 2) { t.push(gen_region(r)); }
-    for _ in 0..r.below(3) { t.push(gen_variant(r)); }
+    for _ in 0..r.below(3) { let v = gen_variant(r); t.push(dictify(r, v)); }
     t
 }
 fn gen_ukey(r: &mut Rng) -> Vec<u8> {
@@ -90,7 +107,8 @@ fn gen_tkey(r: &mut Rng) -> Vec<u8> {
 }
 fn gen_type(r: &mut Rng) -> Vec<u8> {
     const POOL: &[&str] = &["buddhist", "gregory", "h12", "true", "latn", "phonebk", "hybrid", "islamic", "civil"];
-    if r.chance(2, 3) { r.pick(POOL).as_bytes().to_vec() } else { word(r, ALNUM, 3, 8) }
+    let v = if r.chance(2, 3) { r.pick(POOL).as_bytes().to_vec() } else { word(r, ALNUM, 3, 8) };
+    dictify(r, v)
 }
 
 /// a well-formed locale as tokens (distinct keys, no empty bodies), before case/separator noise
@@ -339,6 +357,7 @@ fn ev_value(log: &mut Log, loc: &Locale) {
 // ---- argument pools for histories: valid, boundary, invalid ------------------------------------
 fn arg_sub(r: &mut Rng, valid: &[&str], invalid: &[&str]) -> Vec<u8> {
     let mut v = if r.chance(4, 5) { r.pick(valid).as_bytes().to_vec() } else { r.pick(invalid).as_bytes().to_vec() };
+    v = dictify(r, v);
     if r.chance(1, 4) { v = v.to_ascii_uppercase(); }
     if r.chance(1, 25) { v = mutate(r, v); }
     v
